@@ -24,7 +24,7 @@ class SiteSpecHooks:
             if not ((not f.startswith('.') and recv is None and name == f) or (f.startswith('.') and recv is not None and name == f[1:])):
                 continue
             a = site['arg']
-            val = kw.get(a) if isinstance(a, str) else (args[a] if a < len(args) else None)
+            val = kw.get(a) if isinstance(a, str) else (args[a] if a < len(args) else kw.get(site.get('kw')))   # positional, or by its keyword
             if val is None:
                 eng.oblige(st, 'site/%s-argument-present@L%d' % (site['name'], node.lineno), E.FALSE, kind='call-site')
                 continue
@@ -79,6 +79,9 @@ class SiteSpecHooks:
         body_src = '\n'.join(_ast.unparse(b) for b in node.body)
         for site in self.sites:
             if site['func'] != 'if' or site['contains'] not in body_src:
+                continue
+            # the innermost `if` around the statement: not one whose nested compound statement holds it
+            if any(site['contains'] in _ast.unparse(b) for b in node.body if isinstance(b, (_ast.If, _ast.For, _ast.While, _ast.With, _ast.Try))):
                 continue
             t, facts = eng.spec(site['spec'], st, {}, mode='prove')
             s2 = st.fork()
